@@ -81,8 +81,6 @@ Definition pf_model_ok (c : pf_case) : bool :=
 Definition pf_mismatches (cases : list pf_case) : list nat :=
   find_idx (fun c => negb (pf_model_ok c)) cases 0.
 
-Definition is_rtx (rtxssrc rtxpt : Z) : bool := negb (rtxssrc =? 0) && negb (rtxpt =? 0).
-
 Definition pf_call_code (io : pf_in * pf_out) : nat :=
   let '((h, pay, rs, rpt), (code, sseq, h', pay')) := io in
   let rtx := is_rtx rs rpt in
